@@ -38,6 +38,9 @@ fn main() {
     };
     let replay = args.iter().position(|a| a == "--replay").map(|p| std::path::PathBuf::from(&args[p + 1]));
     common::install_panic_hook();
+    if id == "C14CHILD" {
+        props::c14::child(tier);
+    }
     let ctx = Ctx::new(&id, tier, replay);
     match props::REGISTRY.iter().find(|(n, _)| *n == id) {
         Some((_, f)) => f(&ctx),
